@@ -367,12 +367,14 @@ def gen_case(rnd, rule=None, small=False, slow_ok=False, flags=None, large=False
     return e, o, text
 
 
-def droop_tokens(o):
+def droop_tokens(o, rnd=None):
     "the tokens of a [droop ...] line that embeds the option dict o in a ballot file"
     out = []
     for k, v in sorted(o.items()):
         if k == 'rule':
-            out.insert(0, str(v))
+            out.insert(0, str(v) if (rnd is None or rnd.random() < 0.6) else "rule=%s" % v)
+        elif k == 'arithmetic' and rnd is not None and rnd.random() < 0.5:
+            out.append(str(v))          # a bare arithmetic name means arithmetic=<name>
         elif isinstance(v, bool):
             out.append("%s=%s" % (k, 'true' if v else 'false'))
         else:
